@@ -324,7 +324,16 @@ def bytes_method(ex, recv, name, args, kwargs, st):
         noup = z3.Star(z3.Union(z3.Range(chr(0), chr(64)), z3.Range(chr(91), chr(255))))
         return VBool(z3.And(z3.InRe(s, noup), z3.InRe(s, z3.Concat(z3.Star(ANYCH), LOWER, z3.Star(ANYCH)))))
     if name == "replace":
-        return cls(z3_replace_all(s, args[0].z, args[1].z))
+        r = z3_replace_all(s, args[0].z, args[1].z)
+        a_, b_ = args[0].z, args[1].z
+        if not z3.is_app_of(r, z3.Z3_OP_SEQ_REPLACE_ALL):
+            # uninterpreted REPLACE_ALL with ground facts: nothing to replace -> unchanged; a non-empty replacement of a non-empty pattern never empties a text
+            ex.assumed.add("bytes.replace (all occurrences): uninterpreted; unchanged when the pattern does not occur; for non-empty pattern and replacement the result is empty iff the text is; "
+                           "never shorter when the replacement is at least as long as the pattern")
+            st.fact(z3.And(z3.Implies(z3.Not(z3.Contains(s, a_)), r == s),
+                           z3.Implies(z3.And(z3.Length(a_) > 0, z3.Length(b_) > 0), (z3.Length(r) == 0) == (z3.Length(s) == 0)),
+                           z3.Implies(z3.And(z3.Length(a_) > 0, z3.Length(b_) >= z3.Length(a_)), z3.Length(r) >= z3.Length(s))))
+        return cls(r)
     if name == "count":
         f = uf(ex, "COUNT", S, S, I)
         r = f(s, args[0].z)
